@@ -62,6 +62,7 @@ struct Mon {
   std::vector<int64_t> inst;
   std::vector<i128> civs;
   std::vector<orc::Change> near_changes;  // changes used to build civil probes
+  size_t far_changes = 0;                 // rule changes at/beyond the end of the instant range
 
   void add_i(i128 t) {
     if (orc::fits64(t)) inst.push_back(static_cast<int64_t>(t));
@@ -168,6 +169,20 @@ struct Mon {
     for (i128 r : rule_inst) Z.changes(r, r, &ch);
     near_changes = ch;
     for (auto& c : ch) add_change_civils(c);
+    // rule changes of the last representable year and of its 400-year images beyond the instant range: there every
+    // reading of a skipped/repeated civil time must saturate, whichever of them crossed the limit first
+    if (Z.px_rules) {
+      std::vector<orc::Change> far;
+      const i128 ymax = orc::civ_from_secs(orc::I64MAX).y;
+      for (i128 dy : {(i128)-400, (i128)0, (i128)1, (i128)400, (i128)800, (i128)4000, (i128)400 * 730692561})
+        for (i128 b : {Z.start_of(ymax + dy), Z.end_of(ymax + dy)}) Z.changes(b, b, &far);
+      for (auto& c : far) {
+        add_change_civils(c);
+        i128 lo = std::min(c.T + c.before.off, c.T + c.after.off), hi = std::max(c.T + c.before.off, c.T + c.after.off);
+        for (int k = 0; k < 6; ++k) add_L(lo + rng.range(0, (int64_t)(hi - lo)));
+      }
+      far_changes = far.size();
+    }
     // no-op recorded transitions too
     for (size_t i = 0; i < T.size(); ++i) {
       orc::Info a = Z.at(T[i]);
@@ -519,9 +534,12 @@ struct Mon {
         int64_t v = un(cctz::convert(to_cs(c), tz));
         ctx.stat("C10.evaluations");
         ctx.stat("C10.exactness_checks");
-        if (v != e.want) {
+        // a change may sit within a second of the limit: the wanted instant is the oracle's, clamped
+        int64_t want = orc::clamp64(ans.pre);
+        if (want == e.want) ctx.stat("C10.exactness_checks_at_the_limit_itself");
+        if (v != want) {
           std::ostringstream d;
-          d << "zone=" << zid() << " " << e.what << " cs=" << orc::str(c) << " expected=" << e.want << " got=" << v;
+          d << "zone=" << zid() << " " << e.what << " cs=" << orc::str(c) << " expected=" << want << " got=" << v;
           ctx.viol("C10", std::string("limit-exactness:") + ze.cls + ":" + e.what, d.str());
         }
       }
@@ -767,6 +785,7 @@ struct Mon {
       return;
     }
     build_probes();
+    ctx.stat("zones.far_rule_changes_probed", (long)far_changes);
     if (P.c01) {
       run_c01("C01", false);
       if (ze.flags.find("abs") != std::string::npos) {
